@@ -62,6 +62,13 @@ def ro_cfgs():
     c.append(dict(small, OP=RO_OPS["WRITE"], CNT=1, WITH_HANDLER=None, _unwindset=ro_uw(4), _tier="thorough"))
     return c
 
+import importlib.util as _ilu, os as _os
+def _e2undo(prop):
+    p = _os.path.join(_os.path.dirname(_os.path.abspath(__file__)), "..", "E2UNDO", "spec.py")
+    s = _ilu.spec_from_file_location("spec_E2UNDO_for_" + prop, p)
+    m = _ilu.module_from_spec(s)
+    s.loader.exec_module(m)
+    return m.ENTRIES_FOR(prop)
 HARNESSES = [
     dict(name="ro_inode", src="ro_inode.c",
          extra_src=["lib/ext2fs/blknum.c", "lib/ext2fs/io_manager.c"],
@@ -183,6 +190,8 @@ HARNESSES = [
                "primary and backup superblock state/feature/geometry/UUID fields, mount flags, results of every stubbed pass and "
                "helper, 12 fix_problem answers: symbolic"),
 ]
+HARNESSES += _e2undo("C13")   # the real main() of misc/e2undo.c (sources in harness/E2UNDO)
+
 MANIFEST = {
     "text": "Library-level slice, bounded-exhaustive over the flag word: for every value of fs->flags without EXT2_FLAG_RW the "
             "encoded entry points (inode write, bitmap write, MMP start/stop/update/clear, close of a clean handle) reach no "
